@@ -36,6 +36,19 @@ def run(case):
         if raises: raise ValueError('body')
         return ret
     ns['call'] = call
+    def inner(self, items, raises):
+        for raw, n, v in items:
+            if raw: self.__dict__[n] = v      # a change of the state that no __setattr__ sees
+            else: setattr(self, n, v)
+        if raises: raise ValueError('inner')
+    def callb(self, body, raises, ret):
+        for it in body:
+            if it[0] == 'set': setattr(self, it[1], it[2])
+            elif it[0] == 'raw': self.__dict__[it[1]] = it[2]
+            else: self.inner(it[1], it[2])
+        if raises: raise ValueError('body')
+        return ret
+    ns['inner'] = inner; ns['callb'] = callb
     for alias in ('patch', 'validate', 'deal', 'd', 'id', 'items', 'update'):      # the same method under other names (some collide with names the machinery uses)
         ns[alias] = call
     # the same method carrying other (satisfied) contracts: an invariant violation inside it is still the invariant's error
@@ -73,6 +86,7 @@ def run(case):
         try:
             if op[0] == 'set': setattr(obj, op[1], op[2]); r = 'ok N'
             elif op[0] == 'call': r = 'ok ' + show(getattr(obj, op[4] if len(op) > 4 else 'call')(op[1], op[2], op[3]))
+            elif op[0] == 'callb': r = 'ok ' + show(obj.callb(op[1], op[2], op[3]))
             elif op[0] == 'static': r = 'ok ' + show(obj.smethod(op[1]) if op[1] % 2 else obj.cmethod(op[1]))
             elif op[0] == 'switch':
                 (deal.enable if op[1] else deal.disable)(); r = 'ok N'
